@@ -362,3 +362,160 @@ Proof.
   destruct (total_list roots Hall l (opts_of_params g w keep_ws) proot (est0 0) HN (conj eq_refl eq_refl)) as (b & s' & E & _).
   rewrite E. eauto.
 Qed.
+
+(* ------------------------------------------------------------------ *)
+(* exact totality: the conversion fails iff the tree contains a processing instruction, an embedded tree without
+   language, or EMPTY content of a binary-flagged element outside a CDATA node.  The predicate depends on the
+   tree alone (not on the language, the options or the encoder state), apart from one bit: whether we are inside
+   a CDATA node, which the generator itself threads (in_cdata is cleared after every CDATA node).               *)
+
+Definition is_nil (t : bytes) : bool := match t with [] => true | _ => false end.
+
+(* [sf ptag cd n] = (does n make the conversion fail, in_cdata after n); ptag = the tag entry of the parent element *)
+Fixpoint sf (ptag : option trow) (cd : bool) (n : node) {struct n} : bool * bool :=
+  match n with
+  | Elt nm _ ch =>
+    (fix go (cd : bool) (ns : list node) : bool * bool :=
+       match ns with
+       | [] => (false, cd)
+       | x :: r => let '(f1, cd1) := sf (cur_of nm) cd x in if f1 then (true, cd1) else go cd1 r
+       end) cd ch
+  | Text t => (negb cd && tag_is_binary ptag && is_nil t, cd)
+  | CData ch =>
+    (fst ((fix go (cd : bool) (ns : list node) : bool * bool :=
+             match ns with
+             | [] => (false, cd)
+             | x :: r => let '(f1, cd1) := sf None cd x in if f1 then (true, cd1) else go cd1 r
+             end) true ch), false)
+  | Pi => (true, cd)
+  | SubTree None _ => (true, cd)
+  | SubTree (Some _) roots =>
+    (fst ((fix go (cd : bool) (ns : list node) : bool * bool :=
+             match ns with
+             | [] => (false, cd)
+             | x :: r => let '(f1, cd1) := sf None cd x in if f1 then (true, cd1) else go cd1 r
+             end) false roots), cd)
+  end.
+
+Definition sfl (ptag : option trow) : bool -> list node -> bool * bool :=
+  fix go (cd : bool) (ns : list node) : bool * bool :=
+    match ns with
+    | [] => (false, cd)
+    | x :: r => let '(f1, cd1) := sf ptag cd x in if f1 then (true, cd1) else go cd1 r
+    end.
+
+(* the encoder state on entry to a node: current_tag is the parent's tag (first child), or NULL (later children) *)
+Definition entry_ok (s : est) (p : pinfo) : Prop :=
+  e_in_cdata s = true \/ e_cur_tag s = None \/ e_cur_tag s = p_tag p.
+
+Lemma text_tag_entry s p : entry_ok s p -> e_in_cdata s = false -> text_tag s p = p_tag p.
+Proof.
+  intros [H|[H|H]] Hc; [congruence| |]; unfold text_tag; rewrite H; [reflexivity|]. destruct (p_tag p); reflexivity.
+Qed.
+
+Lemma rewrite_nil l cur t : is_nil (syncml_type_rewrite l cur t) = is_nil t.
+Proof.
+  unfold syncml_type_rewrite.
+  destruct (is_syncml l && tag_is_type cur && bytes_eqb t s_devinf_wbxml) eqn:E1.
+  - apply andb_true_iff in E1 as [_ E1]. apply bytes_eqb_eq in E1. subst t.
+    match goal with |- context [if ?c then _ else _] => destruct c end; reflexivity.
+  - destruct ((xl_id l =? 2201)%N && tag_is_type cur && bytes_eqb t s_dmtnds_wbxml) eqn:E2; [|reflexivity].
+    apply andb_true_iff in E2 as [_ E2]. apply bytes_eqb_eq in E2. subst t. reflexivity.
+Qed.
+
+Definition exact_res (r : xres (bytes * est)) (x : bool * bool) : Prop :=
+  match r with
+  | XOk (_, s') => x = (false, e_in_cdata s')
+  | XErr _ => fst x = true
+  end.
+
+Definition exact_stmt (n : node) : Prop :=
+  forall l o parent s, entry_ok s parent -> exact_res (enc_node l o parent s n) (sf (p_tag parent) (e_in_cdata s) n).
+
+Lemma exact_list ch : Forall exact_stmt ch ->
+  forall l o parent s, entry_ok s parent ->
+    exact_res (seq_nodes (enc_node l o parent) ch s) (sfl (p_tag parent) (e_in_cdata s) ch).
+Proof.
+  induction 1 as [|n ch Hn _ IH]; intros l o parent s HE.
+  - reflexivity.
+  - cbn [seq_nodes sfl]. specialize (Hn l o parent s HE). unfold exact_res in Hn.
+    destruct (enc_node l o parent s n) as [[b1 s1]|e].
+    + rewrite Hn. fold (seq_nodes (enc_node l o parent)). fold (sfl (p_tag parent)).
+      assert (HE1 : entry_ok (reset_cur s1) parent) by (right; left; reflexivity).
+      specialize (IH l o parent (reset_cur s1) HE1). cbn [reset_cur e_in_cdata] in IH.
+      destruct (seq_nodes (enc_node l o parent) ch (reset_cur s1)) as [[b2 s2]|e2]; exact IH.
+    + cbn. destruct (sf (p_tag parent) (e_in_cdata s) n) as [f1 cd1]. cbn [fst] in Hn. subst f1. reflexivity.
+Qed.
+
+Lemma p_tag_below parent nm : p_tag (pinfo_below parent nm) = cur_of nm.
+Proof. destruct nm; reflexivity. Qed.
+
+Lemma exact_node : forall n, exact_stmt n.
+Proof.
+  induction n as [nm attrs ch IHch|t|ch IHc| |sl roots IHr] using node_ind2; intros l o parent s HE.
+  - rewrite (enc_elt_gen l o parent s nm attrs ch). cbn [sf].
+    change ((fix go (cd : bool) (ns : list node) {struct ns} : bool * bool :=
+               match ns with
+               | [] => (false, cd)
+               | x :: r => let '(f1, cd1) := sf (cur_of nm) cd x in if f1 then (true, cd1) else go cd1 r
+               end) (e_in_cdata s) ch) with (sfl (cur_of nm) (e_in_cdata s) ch).
+    destruct ch as [|c0 ch0]; [reflexivity|].
+    assert (HE' : entry_ok (s_in o (c0 :: ch0) nm s) (pinfo_below parent nm)).
+    { right; right. rewrite p_tag_below. unfold s_in. destruct (hc o (c0 :: ch0)); reflexivity. }
+    pose proof (exact_list (c0 :: ch0) IHch l o (pinfo_below parent nm) _ HE') as HL.
+    rewrite p_tag_below in HL.
+    assert (Ecd : e_in_cdata (s_in o (c0 :: ch0) nm s) = e_in_cdata s) by (unfold s_in; destruct (hc o (c0 :: ch0)); reflexivity).
+    rewrite Ecd in HL. unfold exact_res in *.
+    destruct (seq_nodes (enc_node l o (pinfo_below parent nm)) (c0 :: ch0) (s_in o (c0 :: ch0) nm s)) as [[b4 s4]|e]; exact HL.
+  - cbn [enc_node sf]. unfold parse_text, exact_res.
+    destruct (e_in_cdata s) eqn:Hc.
+    + (* inside a CDATA node: copied *)
+      unfold text_policy, xml_encode_text. rewrite Hc. cbn [negb andb]. reflexivity.
+    + rewrite <- (text_tag_entry s parent HE Hc). cbn [negb andb].
+      destruct (tag_is_binary (text_tag s parent)) eqn:EB.
+      * assert (EP : text_policy o parent s t = Some t) by (unfold text_policy; rewrite Hc, EB; reflexivity).
+        rewrite EP. unfold xml_encode_text. rewrite Hc, EB.
+        pose proof (rewrite_nil l (e_cur_tag s) t) as HN.
+        unfold b64_enc. destruct (syncml_type_rewrite l (e_cur_tag s) t) as [|x r]; cbn [is_nil] in HN; rewrite <- HN; [reflexivity|].
+        cbn [e_in_cdata]. try rewrite Hc. reflexivity.
+      * cbn [andb]. destruct (text_policy o parent s t) as [c|]; [|try rewrite Hc; reflexivity].
+        unfold xml_encode_text. rewrite Hc, EB. cbn [e_in_cdata]. try rewrite Hc. reflexivity.
+  - cbn [enc_node sf].
+    change ((fix go (cd : bool) (ns : list node) {struct ns} : bool * bool :=
+               match ns with
+               | [] => (false, cd)
+               | x :: r => let '(f1, cd1) := sf None cd x in if f1 then (true, cd1) else go cd1 r
+               end) true ch) with (sfl None true ch).
+    assert (HE' : entry_ok (set_cdata true s) (pinfo_cdata parent)) by (left; reflexivity).
+    pose proof (exact_list ch IHc l o (pinfo_cdata parent) _ HE') as HL. cbn [pinfo_cdata p_tag set_cdata e_in_cdata] in HL.
+    unfold exact_res in *.
+    destruct (seq_nodes (enc_node l o (pinfo_cdata parent)) ch (set_cdata true s)) as [[b0 s0]|e].
+    + rewrite HL. reflexivity.
+    + exact HL.
+  - reflexivity.
+  - cbn [enc_node sf]. destruct sl as [l'|]; [|reflexivity].
+    change ((fix go (cd : bool) (ns : list node) {struct ns} : bool * bool :=
+               match ns with
+               | [] => (false, cd)
+               | x :: r => let '(f1, cd1) := sf None cd x in if f1 then (true, cd1) else go cd1 r
+               end) false roots) with (sfl None false roots).
+    assert (HE' : entry_ok (est0 (e_indent s)) proot) by (right; left; reflexivity).
+    pose proof (exact_list roots IHr l' o proot _ HE') as HL. cbn [proot p_tag est0 e_in_cdata] in HL.
+    unfold exact_res in *.
+    destruct (seq_nodes (enc_node l' o proot) roots (est0 (e_indent s))) as [[b0 s0]|e].
+    + rewrite HL. reflexivity.
+    + exact HL.
+Qed.
+
+(* EXACT TOTALITY *)
+Theorem enc_xml_fails_iff l g w keep_ws roots :
+  (exists e, enc_xml l g w keep_ws roots = XErr e) <-> fst (sfl None false roots) = true.
+Proof.
+  unfold enc_xml, enc_xml_opts, enc_nodes.
+  assert (Hall : Forall exact_stmt roots) by (apply Forall_forall; intros; apply exact_node).
+  pose proof (exact_list roots Hall l (opts_of_params g w keep_ws) proot (est0 0) (or_intror (or_introl eq_refl))) as HL.
+  cbn [proot p_tag est0 e_in_cdata] in HL. unfold exact_res in HL.
+  destruct (seq_nodes (enc_node l (opts_of_params g w keep_ws) proot) roots (est0 0)) as [[b s']|e].
+  - rewrite HL. cbn [fst]. split; [intros [e H]; discriminate|discriminate].
+  - split; [intros _; exact HL|intros _; eauto].
+Qed.
